@@ -1,5 +1,7 @@
 //! axv: runtime-monitoring harness for AxmosDB (see /verif/DESIGN.md).
+pub mod c04;
 pub mod c05;
+pub mod c06;
 pub mod c12;
 pub mod c15;
 pub mod dbx;
